@@ -7,14 +7,17 @@ seeded/<Cxx>-4, seeded/<Cxx>-5.
 """
 import json, os, re, shutil, subprocess, sys
 
+ROUND = int(os.environ.get("SEED_ROUND", "2"))
+BASE = f"/tmp/r{ROUND}"
+FIRST = {2: 3, 3: 5, 4: 7}[ROUND]
 prop = sys.argv[1]
 extra = sys.argv[2:]
 for k in (1, 2):
-    src = f"/tmp/r2/{prop}/out/{k}"
+    src = f"{BASE}/{prop}/out/{k}"
     if not os.path.exists(os.path.join(src, "patch.diff")):
         print("missing", src); continue
-    name = f"{prop}-{3 + k}"
-    dst = f"/tmp/r2/keep/{name}"
+    name = f"{prop}-{FIRST + k}"
+    dst = f"{BASE}/keep/{name}"
     shutil.rmtree(dst, ignore_errors=True)
     os.makedirs(dst)
     for f in ("patch.diff", "demo.py"):
@@ -30,7 +33,7 @@ for k in (1, 2):
         return ""
     what = grab([r"What(?: was changed| changed)?\*?\*?:", r"Change\*?\*?:"]) or flat[:500]
     needs = grab([r"Needs(?: to manifest)?\*?\*?:", r"(?:Exactly )?what is needed[^:]*:", r"Manifest[^:]*:"]) or flat[500:1000]
-    meta = {"property": prop, "round": 2, "files_changed": files, "what": what, "needs": needs, "notes": notes[:3000]}
+    meta = {"property": prop, "round": ROUND, "files_changed": files, "what": what, "needs": needs, "notes": notes[:3000]}
     json.dump(meta, open(os.path.join(dst, "meta.json"), "w"), indent=1)
     p = subprocess.run(["/verif/tools/keepseed.py", dst, prop, *extra], capture_output=True, text=True)
     print(p.stdout.strip()[-600:], p.stderr.strip()[-300:])
